@@ -613,6 +613,17 @@ func (r *Run) checkLevelSortCoverage(f *prog.FuncInfo, call *ast.CallExpr, level
 				if isLen && lenKey != "" && l[lenKey] == 1 && ((b.Op == token.LSS && l[""] == 0) || (b.Op == token.LEQ && l[""] == -1)) {
 					okCond = true
 				}
+				// definite deviations of an upward counting loop bounded by len(levels)
+				if inc, isInc := lp.Post.(*ast.IncDecStmt); isInc && inc.Tok == token.INC && isLen && lenKey != "" && l[lenKey] == 1 && !okCond {
+					switch {
+					case b.Op == token.GTR || b.Op == token.GEQ || b.Op == token.EQL:
+						fail("cond", "the loop around the level sort runs while i %s len(levels): starting below the length it sorts no level at all", b.Op)
+						return
+					case (b.Op == token.LSS && l[""] < 0) || (b.Op == token.LEQ && l[""] < -1):
+						fail("end", "the loop around the level sort stops before the last level: the deepest levels stay in handle order although they are binary-searched")
+						return
+					}
+				}
 			}
 		}
 		okPost := false
